@@ -192,7 +192,8 @@ theorem tarsHdr_stable : HdrStable tarsHdr := by
   · intro p n h
     unfold tarsHdr at h
     split at h <;> try (simp at h)
-    split at h <;> try (simp at h)
+    split at h
+    · split at h <;> simp at h
     split at h <;> simp at h
     rename_i h1 h2 h3
     subst h
@@ -201,7 +202,8 @@ theorem tarsHdr_stable : HdrStable tarsHdr := by
   · intro p n e h
     unfold tarsHdr at h ⊢
     split at h <;> try (simp at h)
-    split at h <;> try (simp at h)
+    split at h
+    · split at h <;> simp at h
     split at h <;> simp at h
     rename_i h1 h2 h3
     have hl : tars_lenFieldSize ≤ p.length := by omega
@@ -211,10 +213,17 @@ theorem tarsHdr_stable : HdrStable tarsHdr := by
     rw [h] at h2
     simp [this, h2, h3']
   · intro p e h
-    unfold tarsHdr at h
+    unfold tarsHdr at h ⊢
     split at h <;> try (simp at h)
-    split at h <;> try (simp at h)
-    split at h <;> simp at h
+    split at h
+    · rename_i h1 h2
+      have hl : tars_lenFieldSize ≤ p.length := by omega
+      have : ¬ (p.length + e.length < tars_lenFieldSize) := by omega
+      split at h <;> simp at h
+      rename_i hF
+      rw [be_append p e 0 _ hl]
+      simp [this, h2, hF]
+    · split at h <;> simp at h
 
 theorem stable_bolt : Stable frameStep_bolt := envelope_stable _ (boltHdr_stable false) _
 theorem stable_boltv2 : Stable frameStep_boltv2 := envelope_stable _ (boltHdr_stable true) _
